@@ -29,6 +29,7 @@ def genEnv : Env where
   useMatchOffset := true
   missIndex := -1
   parseInit := true
+  parserKeepsScore := true
 
 def fastTables : Tables where
   digit c := if c < 128 then asciiTables.digit c else RTV.Gen.reTables.digit c
@@ -53,14 +54,18 @@ def fastEnv : Env where
   useMatchOffset := true
   missIndex := -1
   parseInit := true
+  parserKeepsScore := true
 
 end RTV.Choice
 
 namespace RTV.Choice
-/-- the code before the `first-occurrence-span` fix -/
-def genEnvPreFix : Env := { genEnv with useMatchOffset := false }
-def fastEnvPreFix : Env := { fastEnv with useMatchOffset := false }
+/-- the code before the `spec-field:Boolean:Resolution.score` fix: the parser reports the default score `0.0` -/
+def genEnvPreFix3 : Env := { genEnv with parserKeepsScore := false }
+def fastEnvPreFix3 : Env := { fastEnv with parserKeepsScore := false }
+/-- the code before the `first-occurrence-span` fix (older than the score fix as well) -/
+def genEnvPreFix : Env := { genEnv with useMatchOffset := false, parserKeepsScore := false }
+def fastEnvPreFix : Env := { fastEnv with useMatchOffset := false, parserKeepsScore := false }
 /-- the code before /repo 4afb7c9b1 (`index_of` answers 1 on a miss) and 74161fefc (`parse_results` unbound) -/
-def genEnvPreFix2 : Env := { genEnv with missIndex := 1, parseInit := false }
-def fastEnvPreFix2 : Env := { fastEnv with missIndex := 1, parseInit := false }
+def genEnvPreFix2 : Env := { genEnv with missIndex := 1, parseInit := false, parserKeepsScore := false }
+def fastEnvPreFix2 : Env := { fastEnv with missIndex := 1, parseInit := false, parserKeepsScore := false }
 end RTV.Choice
